@@ -97,6 +97,22 @@ func drivePoint(c *ctx) {
 			emitBin(o, "v=p=q", p, p, p)
 		}
 	}
+	// Equal on pairs P, lambda*P (same y, x multiplied by beta) in representatives chosen so that the cross-multiplied x terms
+	// differ, in their internal limbs, by a pattern that a careless accumulation of limb differences cancels
+	for bi, beta := range []*big.Int{bigBeta, new(big.Int).Mod(new(big.Int).Mul(bigBeta, bigBeta), bigP)} {
+		for _, w := range betaTwinW(r, beta) {
+			P := clonePt(R1)
+			xb, _ := P.XBytes()
+			z := new(big.Int).Mod(new(big.Int).Mul(w, new(big.Int).ModInverse(new(big.Int).SetBytes(xb), bigP)), bigP)
+			lp := secp256k1.NewIdentityPoint().VerifMulBeta(R1)
+			if bi == 1 {
+				lp.VerifMulBeta(lp)
+			}
+			Q := rep(lp, z)
+			c.E("pt.Equal", "p", ptRaw(P), "q", ptRaw(Q), "out", int(P.Equal(Q)), "twin", 1)
+			c.E("pt.Equal", "p", ptRaw(Q), "q", ptRaw(P), "out", int(Q.Equal(P)), "twin", 1)
+		}
+	}
 	// mixed addition: projective p + affine q (q != identity)
 	for _, a := range pool {
 		for _, bq := range abstract[1:] {
